@@ -25,11 +25,14 @@ NULLS = {
     "-99999.25": ["-99999.25", "-99999.250", "-9.999925E4"],
     "-999.2501": ["-999.2501", "-999.25010", "-9.992501E2"],
     "32767": ["32767", "32767.0", "3.2767E4"],
+    "0.5": ["0.5", "0.50", "5E-1", ".5"],
+    "-1.5": ["-1.5", "-1.50", "-15E-1"],
+    "1": ["1", "1.0", "1E0"],
 }
 NEAR = {
     "-999.25": ["-999.2501", "-999.24", "-999", "-999.249999", "999.25"],
     "-9999": ["-9999.1", "-9998", "9999", "-9999.0001"],
-    "0": ["0.0001", "-1e-9", "1"],
+    "0": ["0.0001", "-1e-9", "1", "1e-17", "-2e-16", "5e-324", "-1e-300"],
     "9999.25": ["9999.2501", "9999", "-9999.25"],
     "1e30": ["1.1e30", "9.99e29", "-1e30"],
     "5": ["5.0001", "4.9999", "-5"],
@@ -37,6 +40,9 @@ NEAR = {
     "-99999.25": ["-99999.2", "-99999.3", "-99999.251"],
     "-999.2501": ["-999.25", "-999.250", "-999.2502"],
     "32767": ["32768", "-32767", "32767.5"],
+    "0.5": ["0.5000000000000001", "0.49999999999999994", "0.5000001", "-0.5"],
+    "-1.5": ["-1.5000000000000002", "-1.4999999999999998", "1.5"],
+    "1": ["1.0000000000000002", "0.9999999999999999", "-1"],
 }
 PLAIN = ["1", "2.5", "-3.75", "100", "0.125", "45.5", "1.5E2", "-7"]
 TEXTS = ["abc", "LIME", "x-1", "n/a", "SAND"]
